@@ -183,6 +183,30 @@ pub fn huge_graph(r: &mut Rng) -> GraphSpec {
     g
 }
 
+/// store-wide minimum and maximum of a node property key over the numeric values (what the
+/// zone map of that key covers); None when no node carries a number under the key
+pub fn key_bounds(g: &GraphSpec, key: &str) -> Option<(Value, Value)> {
+    let num = |v: &Value| match v {
+        Value::Int64(i) => Some(*i as f64),
+        Value::Float64(f) => Some(*f),
+        _ => None,
+    };
+    let mut best: Option<(Value, Value)> = None;
+    for n in &g.nodes {
+        for (k, v) in &n.props {
+            if k == key {
+                if let Some(x) = num(v) {
+                    best = Some(match best {
+                        None => (v.clone(), v.clone()),
+                        Some((lo, hi)) => (if x < num(&lo).unwrap() { v.clone() } else { lo }, if x > num(&hi).unwrap() { v.clone() } else { hi }),
+                    });
+                }
+            }
+        }
+    }
+    best
+}
+
 /// Fill an in-memory database through the direct API and the model in lock-step.
 pub fn build(g: &GraphSpec) -> Built {
     let db = GrafeoDB::new_in_memory();
